@@ -820,3 +820,206 @@ example : changedDefault (some (.str ['P', 'e', 'n', 'd'])) (some (.str ['p', 'e
 example : defaultValue (some (.expr ['\'', 'O', 'k', '\''])) ≠ defaultValue (some (.expr ['\'', 'o', 'k', '\''])) := by decide
 
 end C07
+
+/-! ### table removed together with the foreign keys that point to it -/
+namespace C07
+open Model.Diff Spec.Diff Lemmas.Diff
+
+/-- the model tables after `dropTableRefs t false`: table `t` gone, keys pointing to it gone -/
+def dropRefs (t : String) (x : Table) : Table := { x with fks := x.fks.filter (fun f => f.reftable != t) }
+
+theorem apply_dropTableRefs (t : String) (a : Schema) :
+    (Mutation.dropTableRefs t false).apply a = (a.filter (fun x => x.name != t)).map (dropRefs t) := by
+  simp [Mutation.apply, dropRefs]
+
+theorem names_dropRefs (t : String) (a : Schema) :
+    ((a.filter (fun x => x.name != t)).map (dropRefs t)).map (·.name) = (a.filter (fun x => x.name != t)).map (·.name) := by
+  simp [List.map_map, Function.comp_def, dropRefs]
+
+theorem findTable_dropRefs (t : String) (a : Schema) (n : String) :
+    findTable ((a.filter (fun x => x.name != t)).map (dropRefs t)) n =
+      (findTable (a.filter (fun x => x.name != t)) n).map (dropRefs t) := by
+  unfold findTable
+  exact find?_map_key (dropRefs t) (·.name) (·.name) (fun _ => rfl) n _
+
+theorem findTable_filter_self (a : Schema) (hnd : (a.map (·.name)).Nodup) (t : String) (x : Table) (hx : x ∈ a) (hne : x.name ≠ t) :
+    findTable (a.filter (fun y => y.name != t)) x.name = some x := by
+  unfold findTable
+  have hnd' : ((a.filter (fun y => y.name != t)).map (·.name)).Nodup := (List.filter_sublist.map _).nodup hnd
+  exact find?_key_of_nodup (·.name) _ hnd' x (List.mem_filter.mpr ⟨hx, by simpa using hne⟩)
+
+/-- keys of one table against the same keys without those pointing to `t`: exactly their removal -/
+theorem compareFks_dropRefs (t1 t : String) (fks : List Fk) :
+    compareFks t1 fks (fks.filter (fun f => f.reftable != t)) = (fks.filter (fun f => f.reftable == t)).map (Op.removeFk t1) := by
+  unfold compareFks
+  have hsig : ∀ f g : Fk, fkSig t1 f = fkSig t1 g → f.reftable = g.reftable := by
+    intro f g h; simp only [fkSig, Prod.mk.injEq] at h; exact h.2.2.1
+  have h1 : fks.filter (fun c => !((fks.filter (fun f => f.reftable != t)).map (fkSig t1)).contains (fkSig t1 c)) =
+      fks.filter (fun f => f.reftable == t) := by
+    apply List.filter_congr
+    intro c hc
+    by_cases hr : c.reftable = t
+    · have : ((fks.filter (fun f => f.reftable != t)).map (fkSig t1)).contains (fkSig t1 c) = false := by
+        apply Bool.eq_false_iff.mpr
+        intro hcon
+        simp only [List.contains_iff_mem, List.mem_map, List.mem_filter] at hcon
+        obtain ⟨g, ⟨_, hg⟩, hs⟩ := hcon
+        have := hsig g c hs
+        simp [this, hr] at hg
+      have hb : (c.reftable == t) = true := by simpa using hr
+      simp only [this, hb, Bool.not_false]
+    · have : ((fks.filter (fun f => f.reftable != t)).map (fkSig t1)).contains (fkSig t1 c) = true := by
+        simp only [List.contains_iff_mem]
+        exact List.mem_map_of_mem (f := fkSig t1) (List.mem_filter.mpr ⟨hc, by simpa using hr⟩)
+      have hb : (c.reftable == t) = false := by simpa using hr
+      simp only [this, hb, Bool.not_true]
+  have h2 : (fks.filter (fun f => f.reftable != t)).filter (fun m => !(fks.map (fkSig t1)).contains (fkSig t1 m)) = [] := by
+    apply filter_nil_of_forall
+    intro m hm
+    have : (fks.map (fkSig t1)).contains (fkSig t1 m) = true := by
+      simp only [List.contains_iff_mem]
+      exact List.mem_map_of_mem (f := fkSig t1) (List.mem_filter.mp hm).1
+    simp only [this, Bool.not_true]
+  rw [h1, h2]; simp
+
+end C07
+
+namespace C07
+open Model.Diff Spec.Diff Lemmas.Diff
+
+theorem compareTable_dropRefs (cfg : Cfg) (x : Table) (t : String) (hnd : (x.cols.map (·.name)).Nodup)
+    (hok : ∀ c ∈ x.cols, colOk cfg c = true) :
+    compareTable cfg (reflectTable (createTable x)) (dropRefs t x) =
+      (x.fks.filter (fun f => f.reftable == t)).map (Op.removeFk x.name) := by
+  have := compareTable_sameCols cfg x hnd hok x.uqs x.ixs (x.fks.filter (fun f => f.reftable != t))
+  have e : ({ x with uqs := x.uqs, ixs := x.ixs, fks := x.fks.filter (fun f => f.reftable != t) } : Table) = dropRefs t x := rfl
+  rw [e] at this
+  rw [this, compareIxUq_self, compareFks_dropRefs]
+  rfl
+
+/-- every op of the diff after `dropTableRefs` comes from the dropped table or is the removal of a key pointing to it -/
+theorem mem_diff_dropRefs (cfg : Cfg) (a : Schema) (hwf : WF a) (hok : SchemaOk cfg a) (t0 : Table) (ht0 : t0 ∈ a) (op : Op) :
+    op ∈ diff cfg (reflect (createAll a)) ((a.filter (fun x => x.name != t0.name)).map (dropRefs t0.name)) ↔
+    (op ∈ compareIxUq t0.name true (namedOf [] t0.ixs) [] ∨ op = Op.removeTable t0.name) ∨
+    ∃ x ∈ a, x.name ≠ t0.name ∧ ∃ f ∈ x.fks, f.reftable = t0.name ∧ op = Op.removeFk x.name f := by
+  unfold diff
+  rw [reflect_names', names_dropRefs]
+  have h1 : ((a.filter (fun x => x.name != t0.name)).map (dropRefs t0.name)).filter (fun x => !(a.map (·.name)).contains x.name) = [] := by
+    apply filter_nil_of_forall
+    intro x hx
+    obtain ⟨y, hy, rfl⟩ := List.mem_map.mp hx
+    have hy' := (List.mem_filter.mp hy).1
+    have : (dropRefs t0.name y).name ∈ a.map (·.name) := List.mem_map_of_mem (f := (·.name)) hy'
+    simp only [contains_of_mem _ _ this, Bool.not_true]
+  simp only [h1, List.flatMap_nil, List.nil_append, List.mem_append, List.mem_flatMap, List.mem_filter]
+  constructor
+  · rintro (⟨x, ⟨hx, hnot⟩, hop⟩ | ⟨p, hp, hop⟩)
+    · left
+      simp only [reflect, createAll, List.map_map, List.mem_map, Function.comp_apply] at hx
+      obtain ⟨t1, ht1, rfl⟩ := hx
+      have hname : t1.name = t0.name := by
+        apply Classical.byContradiction
+        intro hne
+        have : t1.name ∈ (a.filter (fun x => x.name != t0.name)).map (·.name) :=
+          List.mem_map.mpr ⟨t1, List.mem_filter.mpr ⟨ht1, by simpa using hne⟩, rfl⟩
+        have hc := contains_of_mem _ _ this
+        simp only [reflectTable, createTable] at hnot
+        rw [hc] at hnot
+        cases hnot
+      have : t1 = t0 := eq_of_name_eq a hwf.tables_nodup t1 t0 ht1 ht0 hname
+      subst this
+      simpa [reflectTable, createTable] using hop
+    · right
+      have hp' := by unfold sortTablesByName at hp; exact List.mem_mergeSort.mp hp
+      obtain ⟨ct, hct, hfm⟩ := List.mem_filterMap.mp hp'
+      simp only [reflect, createAll, List.map_map, List.mem_map, Function.comp_apply] at hct
+      obtain ⟨t1, ht1, rfl⟩ := hct
+      rw [findTable_dropRefs] at hfm
+      cases hf : findTable (a.filter (fun x => x.name != t0.name)) (reflectTable (createTable t1)).name with
+      | none => rw [hf] at hfm; cases hfm
+      | some y =>
+        rw [hf] at hfm
+        simp only [Option.map_some, Option.some.injEq] at hfm
+        subst hfm
+        unfold findTable at hf
+        have hm := List.mem_of_find?_eq_some hf
+        have hn := List.find?_some hf
+        obtain ⟨hma, hpy⟩ := List.mem_filter.mp hm
+        have : y = t1 := eq_of_name_eq a hwf.tables_nodup y t1 hma ht1 (by simpa [reflectTable, createTable] using hn)
+        subst this
+        simp only at hop
+        rw [compareTable_dropRefs cfg y t0.name (hwf.table_wf y hma).cols_nodup (hok y hma)] at hop
+        obtain ⟨f, hf', rfl⟩ := List.mem_map.mp hop
+        obtain ⟨hfm', hfr⟩ := List.mem_filter.mp hf'
+        exact ⟨y, hma, by simpa using hpy, f, hfm', by simpa using hfr, rfl⟩
+  · rintro (h | ⟨x, hx, hne, f, hf, hfr, rfl⟩)
+    · left
+      refine ⟨reflectTable (createTable t0), ⟨?_, ?_⟩, by simpa [reflectTable, createTable] using h⟩
+      · simp only [reflect, createAll, List.map_map, List.mem_map, Function.comp_apply]
+        exact ⟨t0, ht0, rfl⟩
+      · have : t0.name ∉ (a.filter (fun x => x.name != t0.name)).map (·.name) := by
+          intro hm
+          obtain ⟨k, hk, hkn⟩ := List.mem_map.mp hm
+          have := (List.mem_filter.mp hk).2
+          simp [hkn] at this
+        simp only [reflectTable, createTable, contains_false_of_not_mem _ _ this, Bool.not_false]
+    · right
+      refine ⟨(reflectTable (createTable x), dropRefs t0.name x), ?_, ?_⟩
+      · unfold sortTablesByName
+        apply List.mem_mergeSort.mpr
+        apply List.mem_filterMap.mpr
+        refine ⟨reflectTable (createTable x), ?_, ?_⟩
+        · simp only [reflect, createAll, List.map_map, List.mem_map, Function.comp_apply]
+          exact ⟨x, hx, rfl⟩
+        · rw [findTable_dropRefs]
+          have : (reflectTable (createTable x)).name = x.name := rfl
+          rw [this, findTable_filter_self a hwf.tables_nodup t0.name x hx hne]
+          rfl
+      · simp only
+        rw [compareTable_dropRefs cfg x t0.name (hwf.table_wf x hx).cols_nodup (hok x hx)]
+        exact List.mem_map.mpr ⟨f, List.mem_filter.mpr ⟨hf, by simpa using hfr⟩, rfl⟩
+
+end C07
+
+namespace C07
+open Model.Diff Spec.Diff Lemmas.Diff
+
+/-- **table removed together with the foreign keys pointing to it** (variant without column drops): the
+diff contains `remove_table` and one `remove_fk` per referencing key of a remaining table, and every op
+in it lies inside the removed table or is the removal of a key that points to it. -/
+theorem detect_dropTableRefs_partial (cfg : Cfg) (a : Schema) (hwf : WF a) (hok : SchemaOk cfg a)
+    (t0 : Table) (ht0 : t0 ∈ a) :
+    detectOk a (.dropTableRefs t0.name false)
+      ((diff cfg (reflect (createAll a)) ((Mutation.dropTableRefs t0.name false).apply a)).map summary) = true := by
+  rw [apply_dropTableRefs]
+  apply detectOk_of
+  · intro e he
+    simp only [expected, List.mem_cons, List.mem_flatMap] at he
+    rcases he with rfl | ⟨x, hx, hex⟩
+    · exact ⟨Op.removeTable t0.name, (mem_diff_dropRefs cfg a hwf hok t0 ht0 _).mpr (Or.inl (Or.inr rfl)), rfl⟩
+    · by_cases hn : x.name = t0.name
+      · simp [hn] at hex
+      · have hb : (x.name == t0.name) = false := by simpa using hn
+        simp only [hb, Bool.false_eq_true, if_false, List.mem_map, List.mem_filter] at hex
+        obtain ⟨f, ⟨hf, hfr⟩, rfl⟩ := hex
+        refine ⟨Op.removeFk x.name f, (mem_diff_dropRefs cfg a hwf hok t0 ht0 _).mpr
+          (Or.inr ⟨x, hx, hn, f, hf, by simpa using hfr, rfl⟩), rfl⟩
+  · intro op hop
+    rcases (mem_diff_dropRefs cfg a hwf hok t0 ht0 op).mp hop with (h | h) | ⟨x, _, _, f, _, hfr, rfl⟩
+    · have := compareIxUq_table _ _ _ _ _ h
+      simp [touches, this]
+    · subst h; simp [touches, summary, Obj.tableName]
+    · simp [touches, summary, hfr]
+
+/-- non-vacuity: `p` is referenced by `c.r`; dropping `p` with that key is reported as remove_table + remove_fk -/
+def refBase : Schema :=
+  [{ name := "p", cols := [{ name := "id", ty := { fam := .Integer, args := [] }, nullable := false, pk := true }] },
+   { name := "c", cols := [{ name := "id", ty := { fam := .Integer, args := [] }, nullable := false, pk := true },
+                           { name := "r", ty := { fam := .Integer, args := [] }, nullable := true }],
+     fks := [{ name := "fk1", cols := ["r"], reftable := "p", refcols := ["id"] }] }]
+
+example : detectOk refBase (.dropTableRefs "p" false)
+    [⟨.removeTable, .table "p"⟩, ⟨.removeFk, .fk "c" ["r"] "p" ["id"]⟩] = true := by decide
+example : detectOk refBase (.dropTableRefs "p" false) [⟨.removeTable, .table "p"⟩] = false := by decide
+
+end C07
